@@ -14,7 +14,7 @@ ASSUMPTIONS = ["SciPy evaluates the hypergeometric cdf in doubles: cases where a
                "level at the returned or the model's limit are excluded from the equality comparison and counted",
                "lower <= upper for tail levels in (0, 1/2] and nesting in the level are theorems (HGOrder.hypergeomCI_ordered, hg_lower_nested, "
                "hg_upper_nested, from the coupling inequality hyperCdf_succ_ge) and are also checked on the implementation"]
-CLS = [0.95, 0.9, 0.975, 0.5, 0.99, 0.8, 0.3, 0.05]
+CLS = [0.95, 0.9, 0.975, 0.5, 0.99, 0.8, 0.3, 0.05, 0.75, 0.875]
 ALTS = ["two-sided", "lower", "upper"]
 
 
@@ -65,7 +65,7 @@ def run(ctx):
     for N in range(1, NMAX + 1):
         for n in range(1, N + 1):
             for alt in ALTS:
-                cls = CLS if (ctx.thorough() or N <= 6) else ctx.rng.sample(CLS, 2)
+                cls = CLS if (ctx.thorough() or N <= 5) else ctx.rng.sample(CLS, 2)
                 for cl in cls:
                     for x in range(0, n + 1):
                         starts = [None] + ([0, N, N // 2, x] if (ctx.thorough() or ctx.rng.random() < 0.25) else [])
@@ -91,7 +91,10 @@ def run(ctx):
                         want = exact_ci(n, x, N, cl, alt)
                         table[(N, n, alt, cl, x)] = (lo, hi)
                         if (lo, hi) != want:
-                            if near_tie(n, x, N, cl, alt, [lo, hi, want[0], want[1]]):
+                            # exact ties between a tail probability and the level: SciPy's cdf is not exact there in general, so such cases
+                            # are bracketed — except for N <= 5 with a dyadic level (cl = 1/2, 3/4, 7/8: the level itself is exact in doubles), where
+                            # the unchanged code agrees with exact arithmetic on every input (validated exhaustively), so ">= a" versus "> a" is decided there
+                            if not (N <= 5 and cl in (0.5, 0.75, 0.875)) and near_tie(n, x, N, cl, alt, [lo, hi, want[0], want[1]]):
                                 ctx.bracketed += 1; continue
                             det.update({"issue": "not the exact test-inversion limits", "returned": [lo, hi], "expected": list(want)})
                             ctx.violation("oracle", det, site="hypergeom_conf_interval"); continue
